@@ -32,6 +32,9 @@ class BlackScholesParameters(Parameters):
     def __repr__(self) -> str:
         return "BlackScholesParameters(sigma={sigma})".format(sigma=self.sigma)
 
+    def initialisation(self):
+        self.variance = self.sigma * self.sigma
+
 
 class _LevyMeasureDiffusion(LevyMeasure):
     """Lévy measure object for diffusive models"""
